@@ -3,7 +3,7 @@ CONSTANTS
   Kinds = {"cdef", "cpdef", "meth", "cpmeth"}
   CrossPtr = TRUE
   Legacy = {FALSE}
-  WTypes = {"schar", "uchar", "short", "ushort", "uint", "ulong", "llong", "float"}
+  WTypes = {"schar", "uchar", "ushort", "uint", "ulong", "float"}
   WKinds = {"cdef", "cpdef"}
   SentCast = "rtype"
   Dump = TRUE
